@@ -132,7 +132,7 @@ func candidate(w *world, cur *channel.State, shape int) *channel.State {
 		nl = 1
 	}
 	rt.Assume(nl >= 0 && assets >= 0 && rows >= 0)
-	to := &channel.State{ID: gen.ID(), Version: rt.NondetU64(), IsFinal: rt.NondetBool()}
+	to := &channel.State{ID: gen.IDLike(cur.ID), Version: rt.NondetU64(), IsFinal: rt.NondetBool()}
 	switch rt.Choice(2) {
 	case 0: // same kind of app, arbitrary definition (may equal the channel's)
 		to.App, to.Data = appOf(w.app, gen.Address(1)), dataFor(w.app)
